@@ -224,6 +224,114 @@ def parseStringArray (b : Bytes) (off : Nat) (sepSet ws : Bytes) (skipEmpty : Bo
   | .error e => .error e
   | .ok off => arrayLoop b sepSet ws skipEmpty maxItems (b.length + 1) off []
 
+/-! ### quote-aware splitting (`quote_aware=True`, the value lists of `NameValuePairList`)
+
+With `quote_aware` the search of `_parse_string_until_separator` keeps the state of an RFC 7230 §3.2.6 quoted-string
+(`DQUOTE *( qdtext / quoted-pair ) DQUOTE`, a quoted-pair is a backslash and any character) over the bytes of the item
+read so far and does not test the separators at an end position that lies inside a quoted-string.  Everything else
+(`may_end`, the backward whitespace scan, the decode) is unchanged.  A quoted-string that is not closed extends to the end
+of the input. -/
+
+/-- the pair `(quoted, escaped)` of the code: `out` = `(False, False)`, `inq` = `(True, False)`, `esc` = `(True, True)` -/
+inductive QState where
+  | out | inq | esc
+deriving DecidableEq, Repr
+
+/-- `_get_quoted_string_state(quoted, escaped, char)` -/
+def qNext : QState → UInt8 → QState
+  | .out, x => if x = 0x22 then .inq else .out
+  | .inq, x => if x = 0x5c then .esc else if x = 0x22 then .out else .inq
+  | .esc, _ => .inq
+
+/-- the state after a run of bytes -/
+def qAfter (q : QState) (l : Bytes) : QState := l.foldl qNext q
+
+/-- the body of a quoted-string read from state `q`: the state never becomes `out` and ends as `inq` (qdtext and
+quoted-pairs; every byte, the separator too, is allowed) -/
+def quotedBody : QState → Bytes → Bool
+  | q, [] => decide (q = .inq)
+  | q, x :: xs => !decide (qNext q x = .out) && quotedBody (qNext q x) xs
+
+/-- the state after the byte `buf[e]` as well (no byte there: unchanged) -/
+def qStepAt (b : Bytes) (e : Nat) (q : QState) : QState :=
+  match b[e]? with
+  | some x => qNext q x
+  | none => q
+
+/-- the search loop with `quote_aware`: `q` is the state after the bytes `buf[item_offset:e]` (the code updates it at the
+top of the pass for end position `e` with the byte `buf[e-1]`; here the update for the next pass is computed when
+recursing — the same sequence of states).  Inside a quoted-string (`if quoted: continue`) no separator is tested. -/
+def sepSearchQ (b : Bytes) (off : Nat) (seps : List Bytes) : Nat → Nat → QState → Option Nat
+  | 0, _, _ => none
+  | n + 1, e, q =>
+    if q ≠ .out then sepSearchQ b off seps n (e + 1) (qStepAt b e q)
+    else match seps.find? (fun s => s.isSuffixOf (slice b off e)) with
+      | some s => some (e - s.length)
+      | none => sepSearchQ b off seps n (e + 1) (qStepAt b e q)
+
+def findItemEndQ (b : Bytes) (off : Nat) (seps : List Bytes) (mayEnd : Bool) : Option Nat :=
+  match sepSearchQ b off seps (b.length + 1 - off) off .out with
+  | some e => some e
+  | none => if mayEnd then some b.length else none
+
+/-- `_parse_string_until_separator(name, off, seps, str, None, may_end, ws, quote_aware=True)` -/
+def parseStringUntilSeparatorQ (b : Bytes) (off : Nat) (seps : List Bytes) (mayEnd : Bool) (ws : Bytes) :
+    Except PErr (Bytes × Nat) :=
+  match findItemEndQ b off seps mayEnd with
+  | none => .error .invalidValue
+  | some itemEnd =>
+    if itemEnd < off then .error (.crash "OutOfContract")
+    else match trimCount b ws off itemEnd with
+      | .error _ => wrapAround b ws off
+      | .ok c =>
+        if itemEnd - off < c then .error (.crash "OutOfContract")
+        else match asciiText (slice b off (itemEnd - c)) with
+          | .error e => .error e
+          | .ok item => .ok (item, itemEnd - off - c)
+
+/-- first half of the loop body of `_parse_string_array(…, quote_aware=True)` -/
+def stepItemQ (b sepSet ws : Bytes) (skipEmpty : Bool) (off : Nat) (acc : List Bytes) :
+    Except PErr (List Bytes × Nat) :=
+  match parseStringUntilSeparatorQ b off (sepSet.map fun x => [x]) true ws with
+  | .error e => .error e
+  | .ok (_, n) =>
+    let r : Except PErr (List Bytes × Nat) :=
+      if n ≠ 0 then
+        match asciiText (slice b off (off + n)) with
+        | .error e => .error e
+        | .ok item => .ok (acc ++ [item], off + n)
+      else if skipEmpty then .ok (acc, off)
+      else .error .invalidValue
+    match r with
+    | .error e => .error e
+    | .ok (acc, off) =>
+      match skipWs b ws off with
+      | .error e => .error e
+      | .ok off => .ok (acc, off)
+
+/-- one iteration of the `while True` loop; the second half (`stepSep`) does not depend on `quote_aware` -/
+def arrayStepQ (b sepSet ws : Bytes) (skipEmpty : Bool) (maxItems : Option Nat) (off : Nat) (acc : List Bytes) :
+    Except PErr Step :=
+  match stepItemQ b sepSet ws skipEmpty off acc with
+  | .error e => .error e
+  | .ok (acc, off) => stepSep b sepSet ws skipEmpty maxItems off acc
+
+def arrayLoopQ (b sepSet ws : Bytes) (skipEmpty : Bool) (maxItems : Option Nat) :
+    Nat → Nat → List Bytes → Except PErr (List Bytes × Nat)
+  | 0, _, _ => .error (.crash "Fuel")
+  | fuel + 1, off, acc =>
+    match arrayStepQ b sepSet ws skipEmpty maxItems off acc with
+    | .error e => .error e
+    | .ok (.done items off) => .ok (items, off)
+    | .ok (.more items off) => arrayLoopQ b sepSet ws skipEmpty maxItems fuel off items
+
+/-- `_parse_string_array(name, separator, max_item_num, str, None, separator_spaces, skip_empty, quote_aware=True)` -/
+def parseStringArrayQ (b : Bytes) (off : Nat) (sepSet ws : Bytes) (skipEmpty : Bool) (maxItems : Option Nat) :
+    Except PErr (List Bytes × Nat) :=
+  match skipWs b ws off with
+  | .error e => .error e
+  | .ok off => arrayLoopQ b sepSet ws skipEmpty maxItems (b.length + 1) off []
+
 /-! ### numbers -/
 
 def isDigit (x : UInt8) : Bool := 48 ≤ x.toNat && x.toNat ≤ 57
@@ -339,6 +447,57 @@ def arrayTicks (b : Bytes) (off : Nat) (sepSet ws : Bytes) (skipEmpty : Bool) (m
     | .error _ => 0
     | .ok off => arrayLoopTicks b sepSet ws skipEmpty maxItems (b.length + 1) off []
 
+/-! ### cost model of the quote-aware `_parse_string_array` -/
+
+/-- per end position: one tick for the pass, one for the state update (`_get_quoted_string_state`), and — outside a
+quoted-string — one per separator tested -/
+def sepSearchTicksQ (b : Bytes) (off : Nat) (seps : List Bytes) : Nat → Nat → QState → Nat
+  | 0, _, _ => 0
+  | n + 1, e, q =>
+    if q ≠ .out then 2 + sepSearchTicksQ b off seps n (e + 1) (qStepAt b e q)
+    else match seps.find? (fun s => s.isSuffixOf (slice b off e)) with
+      | some _ => 2 + triedCount seps (slice b off e)
+      | none => 2 + triedCount seps (slice b off e) + sepSearchTicksQ b off seps n (e + 1) (qStepAt b e q)
+
+def untilTicksQ (b : Bytes) (off : Nat) (seps : List Bytes) (mayEnd : Bool) (ws : Bytes) : Nat :=
+  sepSearchTicksQ b off seps (b.length + 1 - off) off .out +
+    match findItemEndQ b off seps mayEnd with
+    | none => 0
+    | some itemEnd => if itemEnd < off then 0 else trimTicks b ws off itemEnd + 1
+
+def stepItemTicksQ (b sepSet ws : Bytes) (skipEmpty : Bool) (off : Nat) : Nat :=
+  untilTicksQ b off (sepSet.map fun x => [x]) true ws +
+    match parseStringUntilSeparatorQ b off (sepSet.map fun x => [x]) true ws with
+    | .error _ => 0
+    | .ok (_, n) =>
+      if n ≠ 0 then
+        2 + match asciiText (slice b off (off + n)) with
+          | .error _ => 0
+          | .ok _ => skipWsTicks b ws (off + n)
+      else if skipEmpty then 2 + skipWsTicks b ws off
+      else 2
+
+def arrayStepTicksQ (b sepSet ws : Bytes) (skipEmpty : Bool) (off : Nat) (acc : List Bytes) : Nat :=
+  stepItemTicksQ b sepSet ws skipEmpty off +
+    match stepItemQ b sepSet ws skipEmpty off acc with
+    | .error _ => 0
+    | .ok (_, off) => stepSepTicks b sepSet ws skipEmpty off
+
+def arrayLoopTicksQ (b sepSet ws : Bytes) (skipEmpty : Bool) (maxItems : Option Nat) : Nat → Nat → List Bytes → Nat
+  | 0, _, _ => 0
+  | fuel + 1, off, acc =>
+    arrayStepTicksQ b sepSet ws skipEmpty off acc +
+      match arrayStepQ b sepSet ws skipEmpty maxItems off acc with
+      | .ok (.more items off) => arrayLoopTicksQ b sepSet ws skipEmpty maxItems fuel off items
+      | _ => 0
+
+/-- interpreter steps of `_parse_string_array(…, quote_aware=True)` -/
+def arrayTicksQ (b : Bytes) (off : Nat) (sepSet ws : Bytes) (skipEmpty : Bool) (maxItems : Option Nat) : Nat :=
+  skipWsTicks b ws off +
+    match skipWs b ws off with
+    | .error _ => 0
+    | .ok off => arrayLoopTicksQ b sepSet ws skipEmpty maxItems (b.length + 1) off []
+
 /-! ### the functional specification of `_parse_string_array` (no offsets) -/
 
 /-- split on a single-byte separator; `n` separators give `n + 1` elements -/
@@ -367,6 +526,25 @@ def strictBody (elems : List Bytes) : List Bytes :=
 final one after a separator (`a;` and `a; ` are accepted as `[a]`, the empty input is not). -/
 def splitTrimDrop (sep : UInt8) (ws : Bytes) (dropEmpty : Bool) (b : Bytes) : Except PErr (List Bytes) :=
   let elems := (splitSep sep b).map (trim ws)
+  if dropEmpty then keepAscii (elems.filter fun e => !e.isEmpty)
+  else
+    let body := strictBody elems
+    if body.any (·.isEmpty) then .error .invalidValue else keepAscii body
+
+/-! ### the functional specification of the quote-aware `_parse_string_array` -/
+
+/-- split on a single-byte separator that is read OUTSIDE a quoted-string; `q` is the state at the start -/
+def splitQ (sep : UInt8) : QState → Bytes → List Bytes
+  | _, [] => [[]]
+  | q, x :: xs =>
+    if qNext q x = .out ∧ x = sep then [] :: splitQ sep .out xs
+    else match splitQ sep (qNext q x) xs with
+      | [] => [[x]]
+      | h :: t => (x :: h) :: t
+
+/-- `splitTrimDrop` with the quote-aware split -/
+def splitTrimDropQ (sep : UInt8) (ws : Bytes) (dropEmpty : Bool) (b : Bytes) : Except PErr (List Bytes) :=
+  let elems := (splitQ sep .out b).map (trim ws)
   if dropEmpty then keepAscii (elems.filter fun e => !e.isEmpty)
   else
     let body := strictBody elems
